@@ -223,6 +223,7 @@ Fixpoint descends (tbl : list pt) (id : list nat) (dir a dirF : str) (extra : li
           exists x a' extra', In x (expand (sub_segs nm' enum)) /\ a = x ++ a' /\
             extra = olist (option_map (fun g => dir ++ g) ptr) ++ extra' /\
             descends sub rest (dir ++ x) a' dirF extra' nm arr d aL
+      | Some (PAux _ _) => False
       | None => False
       end
   end.
@@ -235,7 +236,7 @@ Lemma descends_reaches : forall id tbl dir a dirF extra nm arr d aL ty,
 Proof.
   induction id as [|j rest IH]; intros tbl dir a dirF extra nm arr d aL ty H Hty; [contradiction|].
   cbn [descends] in H. cbn [reaches]. unfold sports_of. rewrite nth_error_map.
-  destruct (nth_error tbl j) as [[nm' arr' d'|nm' enum ptr sw sub]|]; [| |contradiction].
+  destruct (nth_error tbl j) as [[nm' arr' d'|nm' enum ptr sw sub|nm' sw]|]; [| |contradiction|contradiction].
   - destruct H as (-> & Ha & _ & _ & _ & _ & -> & _). cbn [option_map sport_of]. auto.
   - destruct H as (x & a' & extra' & Hx & -> & _ & H). cbn [option_map sport_of].
     exists x, a'. split; [exact Hx|]. split; [reflexivity|]. exact (IH sub _ _ _ _ _ _ _ _ ty H Hty).
@@ -273,7 +274,7 @@ Section Tree.
                   (descends_reaches _ _ _ _ _ _ _ _ _ _ ty H Hty)) as Hch.
     assert (Hnul : nul_free ty) by (destruct Hty as (tys & _ & _ & Hn & _); exact Hn).
     cbn [descends] in H.
-    destruct (nth_error tbl j) as [[nm' arr' d'|nm' enum ptr sw sub]|] eqn:E; [| |contradiction].
+    destruct (nth_error tbl j) as [[nm' arr' d'|nm' enum ptr sw sub|nm' sw]|] eqn:E; [| |contradiction|contradiction].
     - (* the leaf *)
       destruct H as (-> & Ha & -> & -> & -> & -> & -> & ->).
       assert (Es : nth_error (sports_of tbl) j = Some (sport_of (PLeaf nm arr d)))
@@ -317,9 +318,10 @@ Section PtInd.
   Variable P : pt -> Prop.
   Hypothesis Hleaf : forall nm arr d, P (PLeaf nm arr d).
   Hypothesis Hsub : forall nm enum ptr sw sub, Forall P sub -> P (PSub nm enum ptr sw sub).
+  Hypothesis Haux : forall nm sw, P (PAux nm sw).
   Fixpoint pt_ind2 (p : pt) : P p.
   Proof.
-    destruct p as [nm arr d|nm enum ptr sw sub]; [apply Hleaf|]. apply Hsub.
+    destruct p as [nm arr d|nm enum ptr sw sub|nm sw]; [apply Hleaf| |apply Haux]. apply Hsub.
     exact ((fix go (l : list pt) : Forall P l :=
               match l with
               | [] => Forall_nil P
@@ -331,10 +333,13 @@ End PtInd.
 Lemma flat_pt_sub : forall ids dir hard soft nm enum ptr sw sub,
   flat_pt ids dir hard soft (PSub nm enum ptr sw sub) =
   flat_map (fun x => flat_tbl ids (dir ++ x) (hard ++ olist (option_map (fun g => dir ++ g) ptr))
-                              (soft ++ olist (option_map (fun g => dir ++ g) sw)) sub 0%nat)
+                              ((soft ++ olist (option_map (sw_addr dir (sub_name nm enum) x) sw))
+                               ++ self_soft (dir ++ x) sub) sub 0%nat)
            (expand (sub_segs nm enum)).
 Proof.
   intros. cbn [flat_pt]. apply flat_map_ext. intros x.
+  generalize ((soft ++ olist (option_map (sw_addr dir (sub_name nm enum) x) sw)) ++ self_soft (dir ++ x) sub).
+  intros soft'.
   generalize 0%nat. induction sub as [|q r IH]; intros i; [reflexivity|].
   cbn [flat_tbl]. rewrite <- IH. reflexivity.
 Qed.
@@ -371,17 +376,19 @@ Proof.
     [rewrite app_assoc|]; reflexivity.
 Qed.
 
-(* every port of the flat application is a leaf of the tree: its index path, the
-   table it stands in, the switches above it *)
+(* every port of the flat application with a default is a leaf of the tree: its index
+   path, the table it stands in, the switches above it (the entry of a non-parameter port
+   has none) *)
 Lemma flat_pt_descends : forall p ids dir hard soft f k,
-  In f (flat_pt ids dir hard soft p) -> (k < p_len (f_port f))%nat ->
+  In f (flat_pt ids dir hard soft p) -> (k < p_len (f_port f))%nat -> p_nodef (f_port f) = false ->
   exists rest a dirF extra nm arr d,
     f_id f = ids ++ rest /\ f_port f = leaf_port (dirF ++ nm) arr d /\
     f_hard f = hard ++ extra /\ dir ++ a = elem_addr (f_port f) k /\
     forall tbl j, nth_error tbl j = Some p ->
       descends tbl (j :: rest) dir a dirF extra nm arr d (leaf_rel nm arr k).
 Proof.
-  induction p as [nm arr d|nm enum ptr sw sub IHs] using pt_ind2; intros ids dir hard soft f k Hin Hk.
+  induction p as [nm arr d|nm enum ptr sw sub IHs|nm sw] using pt_ind2; intros ids dir hard soft f k Hin Hk Hnd.
+  3:{ cbn [flat_pt] in Hin. destruct Hin as [<-|[]]. discriminate Hnd. }
   - cbn [flat_pt] in Hin. destruct Hin as [<-|[]]. cbn [f_port f_id f_hard] in *.
     exists [], (leaf_rel nm arr k), dir, [], nm, arr, d.
     rewrite !app_nil_r. repeat split; try reflexivity.
@@ -391,7 +398,7 @@ Proof.
   - rewrite flat_pt_sub in Hin. apply in_flat_map in Hin. destruct Hin as (x & Hx & Hin).
     destruct (in_flat_tbl _ _ _ _ _ _ _ Hin) as (j' & q & Eq & Hq). cbn [Nat.add] in Hq.
     rewrite Forall_forall in IHs.
-    destruct (IHs q (nth_error_In _ _ Eq) _ _ _ _ f k Hq Hk) as (rest & a & dirF & extra & nm' & arr & d & Hid & Hp & Hh & Ha & Hd).
+    destruct (IHs q (nth_error_In _ _ Eq) _ _ _ _ f k Hq Hk Hnd) as (rest & a & dirF & extra & nm' & arr & d & Hid & Hp & Hh & Ha & Hd).
     exists (j' :: rest), (x ++ a), dirF, (olist (option_map (fun g => dir ++ g) ptr) ++ extra), nm', arr, d.
     split; [rewrite Hid, <- app_assoc; reflexivity|]. split; [exact Hp|].
     split; [rewrite Hh, <- app_assoc; reflexivity|]. split; [rewrite <- Ha, <- app_assoc; reflexivity|].
@@ -400,14 +407,14 @@ Proof.
 Qed.
 
 Lemma flat_root_descends : forall t f k,
-  In f (flat_root t) -> (k < p_len (f_port f))%nat ->
+  In f (flat_root t) -> (k < p_len (f_port f))%nat -> p_nodef (f_port f) = false ->
   exists a dirF nm arr d,
     f_port f = leaf_port (dirF ++ nm) arr d /\ 47 :: a = elem_addr (f_port f) k /\
     descends t (f_id f) [47] a dirF (f_hard f) nm arr d (leaf_rel nm arr k).
 Proof.
-  intros t f k Hin Hk. unfold flat_root in Hin.
+  intros t f k Hin Hk Hnd. unfold flat_root in Hin.
   destruct (in_flat_tbl _ _ _ _ _ _ _ Hin) as (j & q & Eq & Hq). cbn [Nat.add app] in Hq.
-  destruct (flat_pt_descends q _ _ _ _ f k Hq Hk) as (rest & a & dirF & extra & nm & arr & d & Hid & Hp & Hh & Ha & Hd).
+  destruct (flat_pt_descends q _ _ _ _ f k Hq Hk Hnd) as (rest & a & dirF & extra & nm & arr & d & Hid & Hp & Hh & Ha & Hd).
   exists a, dirF, nm, arr, d. split; [exact Hp|]. split; [exact Ha|].
   rewrite Hid, Hh. cbn [app]. apply Hd. exact Eq.
 Qed.
@@ -496,6 +503,7 @@ Fixpoint pt_wf (p : pt) : Prop :=
   match p with
   | PLeaf nm arr d => leaf_wf arr d
   | PSub _ _ _ _ sub => (fix all (l : list pt) : Prop := match l with [] => True | x :: r => pt_wf x /\ all r end) sub
+  | PAux _ _ => True
   end.
 
 Lemma pt_wf_all : forall l,
@@ -506,7 +514,7 @@ Lemma descends_wf : forall id tbl dir a dirF extra nm arr d aL,
   Forall pt_wf tbl -> descends tbl id dir a dirF extra nm arr d aL -> leaf_wf arr d.
 Proof.
   induction id as [|j rest IH]; intros tbl dir a dirF extra nm arr d aL Hw H; [contradiction|].
-  cbn [descends] in H. destruct (nth_error tbl j) as [[nm' arr' d'|nm' enum ptr sw sub]|] eqn:E; [| |contradiction].
+  cbn [descends] in H. destruct (nth_error tbl j) as [[nm' arr' d'|nm' enum ptr sw sub|nm' sw]|] eqn:E; [| |contradiction|contradiction].
   - destruct H as (_ & _ & _ & _ & _ & <- & <- & _).
     rewrite Forall_forall in Hw. exact (Hw _ (nth_error_In _ _ E)).
   - destruct H as (x & a' & extra' & _ & _ & _ & H).
@@ -539,7 +547,8 @@ Section Dispatch.
     2:{ apply nth_error_None in Ef. unfold A, app_of_tree in Hi. rewrite map_length in Hi. lia. }
     pose proof (port_at_app t i f Ef) as Hp. fold A in Hp.
     assert (Hlenf : p_len (f_port f) = p_len (port_at A i)) by (rewrite Hp; reflexivity).
-    destruct (flat_root_descends t f k (nth_error_In _ _ Ef) ltac:(lia)) as (a & dirF & nm & arr & d & Hfp & Ha & Hd).
+    assert (Hndf : p_nodef (f_port f) = false) by (rewrite Hp in Hnd; exact Hnd).
+    destruct (flat_root_descends t f k (nth_error_In _ _ Ef) ltac:(lia) Hndf) as (a & dirF & nm & arr & d & Hfp & Ha & Hd).
     assert (Hstore : store (port_at A i) v = store (leaf_port (dirF ++ nm) arr d) v).
     { rewrite Hp. unfold store, resolve. rewrite Hfp. reflexivity. }
     destruct (store (port_at A i) v) as [v'|] eqn:Es; [|congruence]. symmetry in Hstore.
@@ -610,13 +619,13 @@ Proof.
     intros q Hq Hnd. unfold reset_dependents. rewrite val_at_map_seq by assumption.
     destruct (p_sel (port_at a q)) as [s'|]; [|apply Sh1; assumption].
     destruct (Nat.eqb s' i); [|apply Sh1; assumption].
-    unfold default_of. apply (w_shape a WF q Hq). }
+    unfold default_of. apply (w_shape a WF q Hq). exact Hnd. }
   destruct (is_enabler a i && negb (is_on (val_at s i)) && is_on (val_at st2 i)); [|exact S2].
   destruct S2 as [L2 Sh2].
   split; [unfold allocate; rewrite map_length, seq_length; reflexivity|].
   intros q Hq Hnd. unfold allocate. rewrite val_at_map_seq by assumption.
   destruct (mem_nat i (p_hard (port_at a q))); [|apply Sh2; assumption].
-  unfold initial_of. rewrite Hnd. apply (w_shape a WF q Hq).
+  unfold initial_of. rewrite Hnd. apply (w_shape a WF q Hq). exact Hnd.
 Qed.
 
 Lemma shaped_set_elem : forall a s i k v s',
@@ -632,7 +641,7 @@ Lemma shaped_initial : forall a, wf_app a -> shaped a (initial a).
 Proof.
   intros a WF. split; [unfold initial; rewrite map_length, seq_length; reflexivity|].
   intros i Hi Hnd. rewrite val_at_initial by assumption. unfold initial_of. rewrite Hnd.
-  apply (w_shape a WF i Hi).
+  apply (w_shape a WF i Hi). exact Hnd.
 Qed.
 
 Section Line.
